@@ -16,8 +16,25 @@ def run(c):
     n = 40000 if c.tier == "quick" else 600000
     res, d = c.tool("cssoracle", ["-seed", c.seed, "-tier", c.tier, "-n", n])
     if res is not None:
-        c.corr("Css.box_collapse (four-sides shorthand) vs css.Minify on EVERY list of 1-4 values over four lengths for margin, padding, border-width; Css.hex_color_minify (hash colours: every table key with alpha variants + 4,000 structured random 3/4/6/8-digit tokens) vs css.Minify in a color declaration; Css.number_token / percentage_token / dimension_token (numeric tokens of a value: Number or Decimal, unit split and lower-casing, optional unit of a zero; KeepCSS2 on and off, integer properties, inside known / unknown functions) vs css.Minify on 8,000 generated tokens", d)
-        c.cov["numeric_tokens"] = {k: v for k, v in (res.get("extra") or {}).items() if k.startswith("cssdim")}
+        c.corr("Css.box_collapse (four-sides shorthand) vs css.Minify on EVERY list of 1-4 values over four lengths for margin, padding, border-width; Css.hex_color_minify (hash colours: every table key with alpha variants + 4,000 structured random 3/4/6/8-digit tokens) vs css.Minify in a color declaration; Css.number_token / percentage_token / dimension_token (numeric tokens of a value: Number or Decimal, unit split and lower-casing, optional unit of a zero; KeepCSS2 on and off, integer properties, inside known / unknown functions) vs css.Minify on 8,000 generated tokens; Css.min_number_percentage (alpha values written in the shorter of .X / X%) vs the alpha token css.Minify writes on 2,000 values", d)
+        # a disagreement on a numeric token is searched for a failing input: the token inside a declaration goes to the oracle
+        for k, exm in enumerate((getattr(c, "corr_examples", None) or [])[:8]):
+            f = exm.get("case", "").split("\t")
+            try:
+                if f[0] == "cssalpha":
+                    src = "a{color:rgba(1,2,3," + bytes.fromhex(f[3]).decode("latin-1") + ")}"
+                elif f[0] == "cssdim":
+                    src = "a{x:" + bytes.fromhex(f[4]).decode("latin-1") + "}"
+                else:
+                    continue
+            except Exception:
+                continue
+            w = os.path.join(c.outdir, "corrwitness%d.json" % k)
+            json.dump({"input": src, "options": {}, "inline": False}, open(w, "w"))
+            c.tool("cssoracle", ["-witness", w], sub="corr-search-%d" % k, count=False)
+            if c.new_violations:
+                break
+        c.cov["numeric_tokens"] = {k: v for k, v in (res.get("extra") or {}).items() if k.startswith("cssdim") or k.startswith("cssalpha")}
         c.cov["exhaustive_subrun"] = (res.get("extra") or {}).get("cssbox_cases_exhaustive")
     allk = c.known
     c.known = [e for e in allk if e.get("tool") == "cssoracle"]
